@@ -301,6 +301,7 @@ func (c *clipperBase) buildPath(op *OutPt, reverse, isOpen bool, path *Path64) b
 
 func (c *clipperBase) executeInternal(ct ClipType, fillRule FillRule) {
 	if ct == NoClip {
+		c.succeeded = true
 		return
 	}
 
